@@ -21,11 +21,11 @@ Report(e, cs) == IF cs = {} THEN TRUE
 TInit == Init /\ l = 1
 
 TConstruct ==
-  /\ IsOp("Construct")
+  /\ IsOp("Construct") /\ (Ev.outcome = "ok" => Ev.obj \notin DOMAIN objs)
   /\ Report(Ev, ConstructClauses(Ev, Ev.mode))
   /\ IF Ev.outcome = "ok"
      THEN Construct(Ev.obj, Ev.cls, "ok")            \* the object exists, whatever was expected
-     ELSE Construct(Ev.obj, Ev.cls, "unknown")       \* no object
+     ELSE (objs' = objs /\ solved' = solved /\ hist' = Append(hist, [op |-> "Construct", obj |-> Ev.obj, cls |-> Ev.cls, mode |-> "refused"]))   \* no object
   /\ l' = l + 1
 
 TCall ==
